@@ -1,5 +1,5 @@
 """C08: one-shot server rules -- OSS-OWN, OSS-NAME, OSS-SAMEFD (plus FD-PATH / FD-DROP / NO-FORGET from rules/fd.py)."""
-from vlib.flow import Tracer, chain_calls
+from vlib.flow import Tracer, chain_calls, edge_label
 from vlib.mir import callee_name, op_local, strip_generics
 from rules.send import _root_local
 
@@ -50,10 +50,44 @@ def rule_oss_own(ctx, cfg, F, backend):
         acc = F.fns.get("platform::inprocess::OsIpcOneShotServer::accept")
         if acc:
             rem = [b for b, t in acc.calls_to("std::collections::HashMap::remove")]
-            if rem and acc.all_paths_pass(0, rem)[0]:
+            # `if let Ok(mut servers) = REGISTRY.lock()`: the Err edge is the poisoned registry (another thread panicked while holding it), which the reference
+            # turns into a panic with unwrap() -- not a normal path either way.  (try_lock's Err edge also means "somebody else holds it": that one counts.)
+            tra = Tracer(acc)
+            poisoned = []
+            for b in acc.live_blocks():
+                if acc.term(b)["t"] != "switch":
+                    continue
+                for s_ in acc.succ(b):
+                    for lab in edge_label(acc, b, s_):
+                        if lab["kind"] in ("variant", "variant_not") and lab.get("variant") == "Err" and lab.get("adt") == "std::result::Result" and \
+                                any(r.kind == "call" and r.id in ("std::sync::Mutex::lock", "std::sync::poison::mutex::Mutex::lock") for r in _call_roots(acc, lab["place"])):
+                            poisoned.append(s_)
+            if rem and acc.all_paths_pass(0, rem + poisoned)[0]:
                 R.ok("in-process accept removes the registry entry on every normal path", acc.loc(rem[0]), cfg)
             else:
                 R.violate("platform::inprocess::OsIpcOneShotServer::accept:registry-entry-kept", "a normal path through accept leaves the server's registry entry behind", acc.path, acc.loc(0), config=cfg)
+
+
+def _call_roots(f, pl):
+    """the call whose result the place holds (not looking through value-transparent calls: Mutex::lock itself is what is asked for)"""
+    from vlib.flow import Root
+    l = pl["l"]
+    for _ in range(8):
+        ds = [d for d in f.defs().get(l, []) if not f.is_cleanup(d[0])]
+        if len(ds) != 1:
+            return set()
+        b, si, node = ds[0]
+        if si is None:
+            return {Root("call", strip_generics(callee_name(node)), (), b)}
+        rv = node["rv"]
+        if rv["r"] in ("use", "cast") and op_local(rv["a"][0]) is not None:
+            l = op_local(rv["a"][0])
+            continue
+        if rv["r"] in ("ref", "raw"):
+            l = rv["pl"]["l"]
+            continue
+        return set()
+    return set()
 
 
 def rule_oss_name(ctx, cfg, F, backend):
@@ -196,6 +230,9 @@ def rule_oss_samefd(ctx, cfg, F):
         R.violate("%s:accept-count" % f.path, "%d accept calls" % len(accs), f.path, f.loc(0), config=cfg)
         return
     ab, at = accs[0]
+    if any(ab in f.natural_loop(h) for h in f.loop_headers()):
+        R.violate("%s:accept-in-loop" % f.path, "accept(2) sits in a loop: a server that keeps accepting after a connection did not deliver its first message waits for a client that may never come "
+                  "(the one-shot name is already spent on the peer that went away), where the reference reports the error", f.path, f.loc(ab), config=cfg)
     if any(r.kind == "param" and r.id == 1 and r.field_names()[:1] == ("fd",) for r in tr.roots_of_operand(at["args"][0])):
         R.ok("accept(2) is called on the server's own descriptor", f.loc(ab), cfg)
     else:
@@ -217,7 +254,13 @@ def rule_oss_samefd(ctx, cfg, F):
             a = f.term(r.block)["args"][0]
             wraps = any(x.kind == "call" and x.block == ab for x in tr.roots_of_operand(a))
     recvs = [(b, t) for b, t in f.calls() if strip_generics(callee_name(t)).endswith("::OsIpcReceiver::recv")]
-    same = bool(recvs) and all({x.key() for x in tr.roots_of_operand(t["args"][0])} == {x.key() for x in rr} for b, t in recvs)
+    same = all({x.key() for x in tr.roots_of_operand(t["args"][0])} == {x.key() for x in rr} for b, t in recvs)
+    # the first message read with the platform's free receive function on the accepted descriptor itself (the receiver wraps that same descriptor)
+    free = [(b, t) for b, t in f.calls() if strip_generics(callee_name(t)) == "platform::unix::recv" and t["args"]]
+    same = same and all(any(x.kind == "call" and x.block == ab for x in tr.roots_of_operand(t["args"][0])) and
+                        all(x.kind == "call" and x.block == ab for x in tr.roots_of_operand(t["args"][0]) if x.kind == "call") for b, t in free)
+    same = same and bool(recvs or free)
+    recvs = recvs or free
     if wraps and same:
         R.ok("the returned receiver wraps the accepted descriptor and the first message is read from it", f.loc(recvs[0][0]), cfg)
     else:
